@@ -16,6 +16,8 @@ func checkC02(r *Run) {
 	ruleA6(r, p, []string{"internal/json", cborRel})
 	ruleJSONSliceAppenders(r, p)
 	ruleElemAgreement(r, p)
+	ruleFloatRendering(r, p)
+	ruleRawCBORAlphabet(r, p)
 	if r.Tier == "thorough" {
 		if p32 := r.Use("J32"); p32 != nil {
 			ruleA6(r, p32, []string{"internal/json", cborRel})
@@ -27,5 +29,5 @@ func checkC02(r *Run) {
 	r.Floor("A5", 150)
 	r.Floor("A6", 25)
 	r.Floor("JSONARR", 30)
-	r.Floor("ELEM", 15)
+	r.Floor("ELEM", 17)
 }
